@@ -74,6 +74,12 @@ def apply_op(world, chrom, op):
         f.append_generic_accessible(t, world.accessibles[op[1] % len(world.accessibles)])
     elif kind == "mutate":
         chrom.mutate()
+    elif kind == "mut_insert":    # the insertion operator alone (TestCaseMutation._mutation_insert)
+        chrom._mutation_insert()  # noqa: SLF001
+    elif kind == "mut_delete":
+        chrom._mutation_delete()  # noqa: SLF001
+    elif kind == "mut_change":
+        chrom._mutation_change()  # noqa: SLF001
     elif kind == "delete":
         if t.size():
             f.delete_statement_gracefully(t, randomness.next_int(0, t.size()))
